@@ -31,8 +31,8 @@ import (
 type Req struct {
 	Conn   int    `json:"conn"`
 	Method string `json:"method"`
-	Sess   string `json:"sess"`          // none | right | wrong
-	Tr     string `json:"tr,omitempty"`  // SETUP: udp | tcp
+	Sess   string `json:"sess"`           // none | right | wrong
+	Tr     string `json:"tr,omitempty"`   // SETUP: udp | tcp
 	Pipe   bool   `json:"pipe,omitempty"` // do not wait for the response before sending the next request
 }
 
